@@ -9,6 +9,7 @@ import (
 	"encoding/binary"
 	"errors"
 	"io"
+	"io/ioutil"
 )
 
 // ErrChecksum indicates a checksum or file size mismatch on decode.
@@ -28,6 +29,7 @@ var ErrInvalidSize = errors.New("lzhuf: invalid size header")
 // marking the end of the data. Data consistency should then be verified by calling Close.
 type Reader struct {
 	r   bitReader
+	src io.Reader // The underlying reader, copying every byte read into crcw
 	z   *lzhuf
 	err error
 
@@ -72,6 +74,7 @@ func NewReader(r io.Reader, crc16 bool) (*Reader, error) {
 
 	// Copy every byte read into our CRC writer (for checksum)
 	r = io.TeeReader(r, d.crcw)
+	d.src = r
 	d.r = newBitReader(r)
 
 	if err := binary.Read(r, binary.LittleEndian, &d.header.size); err != nil {
@@ -97,6 +100,16 @@ func (d *Reader) Close() error {
 		return d.err
 	case d.r.Err() != nil:
 		return d.r.Err()
+	}
+
+	if d.crc16 {
+		// The checksum covers all of the compressed data, also the part the decoder did not have to read.
+		if _, err := io.Copy(ioutil.Discard, d.src); err != nil {
+			return err
+		}
+	}
+
+	switch {
 	case d.crc16 && d.header.crc != d.crcw.Sum():
 		return ErrChecksum
 	case d.header.size != d.state.pos-int32(d.state.buf.Len()):
